@@ -4,7 +4,7 @@ import S3V.Spec.FsWrite
 /-!
 Driver for component `fswrite` (C19).
 
-case line: `fswrite id op prev frames fault hasmeta big | code dest tmps mdata info predrop pends extra`
+case line: `fswrite id op prev frames fault hasmeta big keymode | code dest tmps mdata info predrop pends extra phase pdir`
 (see `harness/src/bin/h_fswrite.rs`).
 
 * deterministic faults (and drops that came too late): the model's `run` must give the observed answer and state;
@@ -31,6 +31,11 @@ structure Case where
   fault : String
   hasMeta : Bool
   big : Bool
+  keymode : String
+
+/-- the key has a parent of its own (`nd/obj`, `pf/obj`): only for objects, not for part files -/
+def Case.deepKey (c : Case) : Bool := c.keymode ≠ "plain" && c.op ≠ "upload_part"
+def Case.newParent (c : Case) : Bool := c.keymode = "newparent" && c.op ≠ "upload_part"
 
 def Case.cfg (c : Case) : Cfg :=
   let n := c.frames.length
@@ -41,6 +46,7 @@ def Case.cfg (c : Case) : Cfg :=
       | .err => Part.missing
     checksumsEqual := !c.fault.startsWith "cksum-bad"
     hasMeta := c.hasMeta
+    mkdirsFails := c.keymode = "parentfile" && c.op ≠ "upload_part"
     renameFails := c.fault = "destdir"
     metaFails := c.fault = "metafail"
     infoFails := c.fault = "infofail" }
@@ -52,9 +58,11 @@ def Case.prog (c : Case) : List Step :=
   | _ => completeProg c.cfg
 
 def Case.side0 (c : Case) : Side := if c.prev && c.op ≠ "upload_part" then .old else .absent
-def Case.init (c : Case) : St := initSt (if c.prev && c.fault ≠ "destdir" then some oldBytes else none) c.side0 c.side0
+def Case.init (c : Case) : St :=
+  initSt (if c.prev && c.fault ≠ "destdir" && !c.deepKey then some oldBytes else none) c.side0 c.side0
 
-def Case.dest0Str (c : Case) : String := if c.fault = "destdir" then "dir" else if c.prev then "old" else "absent"
+def Case.dest0Str (c : Case) : String :=
+  if c.fault = "destdir" then "dir" else if c.prev && !c.deepKey then "old" else "absent"
 def Case.mdata0Str (c : Case) : String :=
   if c.fault = "metafail" then "blocked" else if c.prev && c.op ≠ "upload_part" then "old" else "absent"
 def Case.info0Str (c : Case) : String :=
@@ -63,31 +71,36 @@ def Case.info0Str (c : Case) : String :=
 def sideStr (init : String) (init0 : Side) (s : Side) : String := if s = init0 then init else
   match s with | .new => "new" | .old => "old" | .absent => "absent"
 
-/-- observable form of a model state: tmp present, dest class, metadata, info -/
-def Case.view (c : Case) (s : St) : Bool × String × String × String :=
+/-- observable form of a model state: tmp present, dest class, metadata, info; with a fresh parent directory also
+    whether `create_dir_all` has made it -/
+def Case.viewStr (c : Case) (s : St) (withPulled : Bool) : String :=
   let d := if s.dest = c.init.dest then c.dest0Str else "new"
-  (s.tmp, d, sideStr c.mdata0Str c.side0 s.mdata, sideStr c.info0Str c.side0 s.info)
+  s!"T{if s.tmp then 1 else 0}.D{d}.M{sideStr c.mdata0Str c.side0 s.mdata}.I{sideStr c.info0Str c.side0 s.info}" ++
+    (if withPulled then s!".F{s.pulled}" else "") ++ (if c.newParent then s!".N{if s.dirs then 1 else 0}" else "")
 
-def viewStr (v : Bool × String × String × String) : String :=
-  s!"T{if v.1 then 1 else 0}.D{v.2.1}.M{v.2.2.1}.I{v.2.2.2}"
+/-- the harness's `predrop` always ends in `.N<0|1>`; it is only meaningful with a fresh parent -/
+def Case.normPredrop (c : Case) (p : String) : String :=
+  if c.newParent then p else ".".intercalate ((p.splitOn ".").filter fun f => !f.startsWith "N")
 
 /-- model against observation: `.ok class` or `.error (model, impl)` -/
-def modelVerdict (c : Case) (code dest tmps mdata info predrop extra : String) : Except (String × String) String :=
+def modelVerdict (c : Case) (code dest tmps mdata info predrop extra pdir : String) (dropTag : String) :
+    Except (String × String) String :=
   let prog := c.prog
-  let observed := s!"T{if tmps = "0" then 0 else 1}.D{dest}.M{mdata}.I{info}"
+  let observed := s!"T{if tmps = "0" then 0 else 1}.D{dest}.M{mdata}.I{info}" ++ (if c.newParent then s!".N{pdir}" else "")
   if code = "DROPPED" then
     let ks := List.range (prog.length + 1)
     let reach := ks.filterMap fun k => match prefixRun k prog c.init with | .ok s => some s | .error _ => none
-    let cands :=
-      if predrop = "-" then reach
-      else reach.filter fun s => s!"{viewStr (c.view s)}.F{s.pulled}" = predrop
-    if cands.isEmpty then .error ("no-model-state-matches-predrop", predrop)
-    else if cands.any fun s => viewStr (c.view (cleanup s)) = observed then
-      .ok (if dest = "new" then "drop-after-rename" else "drop-before-rename")
-    else .error (viewStr (c.view (cleanup (cands.headD c.init))), observed)
+    let pd := c.normPredrop predrop
+    let cands := if predrop = "-" then reach else reach.filter fun s => c.viewStr s true = pd
+    if cands.isEmpty then .error ("no-model-state-matches-predrop", pd)
+    else if cands.any fun s => c.viewStr (cleanup s) false = observed then
+      -- between the two awaits of `done()`: the fresh parent exists, the rename has not happened
+      let insideDone := c.newParent && predrop ≠ "-" && cands.all fun s => s.dirs && s.tmp && s.dest = c.init.dest
+      .ok (if insideDone then "drop-inside-done" else dropTag)
+    else .error (c.viewStr (cleanup (cands.headD c.init)) false, observed)
   else
     let (mc, ms) := run prog c.init
-    let model := s!"{mc.name}/{viewStr (c.view ms)}" ++
+    let model := s!"{mc.name}/{c.viewStr ms false}" ++
       (if c.op = "complete_multipart_upload" then s!"/U{if ms.uploadRec then 1 else 0}" else "")
     let impl := s!"{code}/{observed}" ++
       (if c.op = "complete_multipart_upload" then "/" ++ (extra.takeWhile (· ≠ 'P')).toString else "")
@@ -100,18 +113,22 @@ def modelVerdict (c : Case) (code dest tmps mdata info predrop extra : String) :
         | .entityTooSmall => "err-part-size"
         | .internalError =>
           if c.fault = "destdir" then "err-rename" else if c.fault = "metafail" || c.fault = "infofail" then "err-sidefile"
+          else if c.cfg.mkdirsFails then "err-mkdirs"
           else if c.op = "complete_multipart_upload" then "err-part-missing" else "err-body"
 
-def judgeSingle (id : String) (c : Case) (code dest tmps mdata info predrop extra : String) : String :=
+def judgeSingle (id : String) (c : Case) (code dest tmps mdata info predrop pends extra phase pdir : String) : String :=
   let setup : FsWriteSpec.Setup :=
-    { op := c.op, dest0 := c.dest0Str, mdata0 := c.mdata0Str, info0 := c.info0Str, hasMeta := c.hasMeta, fault := c.fault }
-  let obs : FsWriteSpec.Obs := { code := code, dest := dest, tmps := tmps.toNat!, mdata := mdata, info := info }
-  let mv := modelVerdict c code dest tmps mdata info predrop extra
+    { op := c.op, dest0 := c.dest0Str, mdata0 := c.mdata0Str, info0 := c.info0Str, hasMeta := c.hasMeta, fault := c.fault,
+      keymode := c.keymode, itemMissing := c.frames.any (· == Frame.err),
+      partTooSmall := c.op = "complete_multipart_upload" && c.frames.length ≥ 2 && !c.big }
+  let obs : FsWriteSpec.Obs :=
+    { code := code, dest := dest, tmps := tmps.toNat!, mdata := mdata, info := info, phase := phase, pends := pends.toNat! }
+  let mv := modelVerdict c code dest tmps mdata info predrop extra pdir (FsWriteSpec.whereTag setup obs true)
   match FsWriteSpec.judge setup obs with
   | some (cls, d) =>
     -- the model mirrors the code, defects included: say whether it predicted this observation
     let m := match mv with | .ok _ => "model=same" | .error (m, _) => s!"model-differs={m}"
-    specfail id cls s!"{c.op} prev={c.prev} fault={c.fault}: {d} [{m}]"
+    specfail id cls s!"{c.op} prev={c.prev} fault={c.fault} key={c.keymode} phase={phase} pends={pends}: {d} [{m}]"
   | none =>
     match mv with
     | .ok cls => agree id cls
@@ -119,13 +136,14 @@ def judgeSingle (id : String) (c : Case) (code dest tmps mdata info predrop extr
 
 def judge (fs : List String) : String :=
   match fs with
-  | [_comp, id, op, prev, frames, fault, hasmeta, big, "|", code, dest, tmps, mdata, info, predrop, _pends, extra] =>
+  | [_comp, id, op, prev, frames, fault, hasmeta, big, keymode, "|", code, dest, tmps, mdata, info, predrop, pends,
+      extra, phase, pdir] =>
     match parseFrames frames with
     | none => badline id
     | some frs =>
       if op = "concurrent" then
         -- spec and model coincide: exactly one writer's bytes, every call OK, no temporary file
-        if tmps ≠ "0" then specfail id "concurrent-tmp-leftover" s!"{tmps} temporary file(s) left"
+        if tmps ≠ "0" then specfail id "tmp-leftover:concurrent" s!"{tmps} temporary file(s) left"
         else if !(extra.startsWith "W") || extra = "Wmixed" || extra = "Wnone" || extra = "Wold" then
           specfail id "concurrent-not-one-writer" s!"stored content: {extra}"
         else if code ≠ "OK" then disagree id "OK" code
@@ -134,8 +152,8 @@ def judge (fs : List String) : String :=
           | none => badline id
       else
         judgeSingle id { op := op, prev := prev = "present", frames := frs, fault := fault, hasMeta := hasmeta = "1",
-                         big := big = "1" } code dest tmps mdata info predrop extra
-  | [_comp, id, _, _, _, _, _, _, "|", "PANIC"] => specfail id "panic" "the real code panicked"
+                         big := big = "1", keymode := keymode } code dest tmps mdata info predrop pends extra phase pdir
+  | [_comp, id, _, _, _, _, _, _, _, "|", "PANIC"] => specfail id "panic" "the real code panicked"
   | _ :: id :: _ => badline id
   | _ => badline "?"
 
